@@ -415,8 +415,12 @@ def gen_probing_auto(rng, big=False):
     # clusters that wrap around the end of the table at several sizes: ideals just below powers of two
     keys, seen = [], {invalid}
     style = rng.choice(["wraps", "wraps", "collide", "wide", "mixed"])
+    tries = 0
     while len(keys) < n_keys:
+        tries += 1
         st = style if style != "mixed" else rng.choice(["wraps", "collide", "wide"])
+        if tries > 4 * n_keys + 50:
+            st = "wide"          # the crafted pools are finite
         if st == "wraps":
             j = rng.randrange(0, 10)
             k = ((1 << j) - 1 - rng.randrange(0, 3)) % (1 << 64) + (rng.randrange(0, 64) << rng.choice([j, j + 1, 10]))
